@@ -214,6 +214,13 @@ func probeFlight(p flightArg) (string, string) {
 	if err := g.UnmarshalText(ta); err != nil || g != da {
 		return "text_overwritten_by_later_call", fmt.Sprintf("the text kept from a.MarshalText() parses to %v, %v after later calls; want %v", g, err, da)
 	}
+	// the caller may write into a returned slice: later calls must not be affected by that
+	defer mc.Scribble(ta, tb, fa, fb)()
+	ta2, _ := da.MarshalText()
+	fb2, _ := date.DefaultFormatter(nil, db, date.FormatBasic)
+	if string(ta2) != wa || string(fb2) != wbBasic || da.String() != wa {
+		return "text_affected_by_caller_writing_into_earlier_result", fmt.Sprintf("after the caller overwrote earlier results: MarshalText = %q (want %q), DefaultFormatter(basic) = %q (want %q), String = %q", ta2, wa, fb2, wbBasic, da.String())
+	}
 	return "", ""
 }
 
